@@ -126,7 +126,7 @@ NAME_FORMATS = ("{}_tune", "tune_{}")       # custom name formats of the series 
 PARDB = ("number", "series")                # how an old calibration sits in the input databox under a parameter's name
 STALE_PAR = (0.25, 0.05, 0.11)              # stale parameter = assigned + offset (+ slope * row) (+ step * variant)
 PV = {"none": (1.3, 0.1), "log": (0.2, 0.05), "diff": (0.11, 0.02), "diff_log": (0.04, 0.01),
-      "roc": (1.07, -0.02), "pct": (2.5, 0.5)}
+      "roc": (1.07, -0.02), "pct": (2.5, 0.5), "flat": (0.0, 0.0)}
 
 
 def _rot(seed, i):
@@ -143,6 +143,8 @@ def lhs_tree(tr, name):
         return v
     if tr == "log":
         return ("fn", "log", v)
+    if tr == "flat":                 # plan transform only: the variable stays where it was, x[t] - x[t-1] = 0
+        return ("pf", "diff", v, None)
     return ("pf", tr, v, None)
 
 
@@ -164,7 +166,7 @@ def invert(tr, value, xlag):
             return value
         if tr == "log":
             return math.exp(value)
-        if tr == "diff":
+        if tr == "diff" or tr == "flat":
             return xlag + value
         if tr == "diff_log":
             return xlag * math.exp(value)
@@ -342,6 +344,9 @@ def make_inputs(M, plan, resmode, nv, seed):
                 for t in WINDOW:
                     ok = present is None or t in present
                     tab[(sname, t)] = ((a + b * t + 0.05 * j) * (1.1 if v else 1.0)) if ok else NAN
+                    if ptr == "flat":
+                        # the flat transform reads no series: the harness-side entry is the implied change, zero
+                        tab[(sname, t)] = 0.0
         if resmode == "zero":            # zero input residual at the exogenized variables inside the window
             for j, dates, ptr, wd in plan["entries"]:
                 r = M.eqs[j]["res"]
@@ -974,6 +979,12 @@ def plan_cases(j, ptr, wd, nv, prepend, quick, lhs_tr=None):
     return out
 
 
+def plan_cases_flat(j, nv, prepend):
+    """plans that consist of 'flat' points only (the variable keeps its previous value; no plan data are read)"""
+    return [dict(plan=dict(entries=[[j, dates, "flat", False]], present=None), resmode=resmode, nv=nv, prepend=prepend)
+            for dates in WINDOW_SUBSETS for resmode in ("zero", "nonzero")]
+
+
 def plan_cases_two(ptr, wd, nv, prepend):
     """both variables of a 2-equation skeleton exogenized, each on every non-empty subset of the window"""
     out = []
@@ -1035,6 +1046,11 @@ def shard_models(item, res, ctx):
 
 def shard_plans(item, res, ctx):
     context, spec, j, ptr, wd, nv, prepend = item
+    if ptr == "flat":
+        cases = plan_cases_flat(j, nv, prepend)
+        run_model_cases(spec, cases, res, ctx.seed)
+        res.count("flat_only_plan_cases", len(cases))
+        return
     cases = plan_cases(j, ptr, wd, nv, prepend, ctx.quick, lhs_tr=spec["eqs"][j]["tr"])
     M = run_model_cases(spec, cases, res, ctx.seed)
     if ptr == "pct" and wd:
@@ -1085,6 +1101,9 @@ def run(ctx, total, info):
                     shards_p.append((context, spec, j, ptr, wd, 1, False))
                 if context == "A2" or (not quick and context in ("A", "B2", "C", "D")):
                     shards_p.append((context, spec, j, ptr, wd, 2, True))
+    for context, spec, j in skeletons(quick):
+        if context != "A2":
+            shards_p.append((context, spec, j, "flat", False, 1, False))
     shards_p2 = []
     for context, spec in skeletons_two(quick):
         for ptr in TR:
@@ -1139,6 +1158,7 @@ def run(ctx, total, info):
     }
     required = QUICK_FLOORS if quick else THOROUGH_FLOORS
     info["floors"] = {k: (measured[k], required[k]) for k in required}
+    info["floors"]["flat_only_plan_cases"] = (c["flat_only_plan_cases"], 150)
     info["floors"]["runs_returned_through_target_db"] = (c["runs_returned_through_target_db"], 4000)
     info["floors"]["models_reversed_then_sequentialized"] = (c["models_built_reversed_then_sequentialized"], 2500 if quick else 20000)
 
